@@ -330,7 +330,7 @@ func ruleExcl(p *Prog, r *RuleResult) {
 						}
 						if ret, ok := in.(*ssa.Return); ok && retMayBeNil(ret, len(ret.Results)-1) {
 							// returning the package-level sentinel error: a load of a global is fine
-							v := ret.Results[len(ret.Results)-1]
+							v := rvals(ret)[len(ret.Results)-1]
 							if u, ok := v.(*ssa.UnOp); ok {
 								if _, isG := u.X.(*ssa.Global); isG {
 									continue
